@@ -264,6 +264,12 @@ func genTable(r *rand.Rand) interface{} {
 			entries = append(entries, RegEntry{Code: 2 + r.Intn(5), Ty: Ty{n, true}})
 		}
 	}
+	if r.Intn(5) == 0 && len(entries) > 0 {
+		// the same type under a second code (a client that talks to an old and a new server): it is sent under
+		// the code registered last and must be accepted under both
+		e0 := entries[r.Intn(len(entries))]
+		entries = append(entries, RegEntry{Code: 10 + r.Intn(3), Ty: e0.Ty})
+	}
 	if r.Intn(6) == 0 { // codec code registered for something
 		entries = append(entries, RegEntry{Code: 9, Ty: Ty{fw.Pick(r, []string{"ECodec", "EMarsh", "EPlain"}), r.Intn(2) == 0}})
 	}
@@ -288,10 +294,26 @@ func Run(d *fw.Driver, res *fw.Result, seed int64, n int, corpus []json.RawMessa
 		} else {
 			c.CReg = genTable(r)
 		}
+		forceTy := Ty{}
+		if i%15 == 7 {
+			// directed: the client knows a type under two codes (registered one after the other), the server
+			// sends it under the one registered first
+			forceTy = Ty{fw.Pick(r, []string{"EPlain", "EMarsh", "EWrap"}), r.Intn(2) == 0}
+			c1, c2 := 2+r.Intn(3), 7+r.Intn(3)
+			c.SReg = []RegEntry{{Code: c1, Ty: forceTy}}
+			c.CReg = []RegEntry{{Code: c1, Ty: forceTy}, {Code: c2, Ty: forceTy}}
+			if r.Intn(2) == 0 {
+				c.CReg = []RegEntry{{Code: c1, Ty: forceTy}, {Code: 6, Ty: Ty{"EPtr", true}}, {Code: c2, Ty: forceTy}}
+			}
+		}
 		c.Shape = fw.Pick(r, []string{"err", "valerr"})
 		c.Trans = fw.Pick(r, []string{"custom", "custom", "http", "ws"})
 		sp := Spec{Nil: r.Intn(8) == 0, Msg: fw.Pick(r, messages), Content: fw.Pick(r, []string{"k", "", "x y", "ünï", "\"q\""})}
 		sp.Ty = Ty{fw.Pick(r, names), r.Intn(2) == 0}
+		if forceTy.Name != "" {
+			sp.Ty = forceTy
+			sp.Nil = false
+		}
 		if sp.Ty.Name == "EPtr" {
 			sp.Ty.Ptr = true
 		}
@@ -498,6 +520,30 @@ func one(d *fw.Driver, res *fw.Result, c *Case) error {
 				if je == nil || reflect.TypeOf(gotErr) != reflect.TypeOf(je) || je.Message != herr.Error() || je.Code != 1 {
 					mon = fmt.Sprintf("unregistered error %T(%q) arrived as %T(%q)", herr, herr.Error(), gotErr, gotErr.Error())
 				}
+			}
+		}
+	}
+	if mon == "" && herr != nil && sp.Fail == "" && capOf(Ty{sp.Ty.Name, true}) != "codec" {
+		// registered under the same code on both sides: the caller must get exactly that registered type
+		sEntries, _ := entriesOf(c.SReg)
+		cEntries, _ := entriesOf(c.CReg)
+		sCode := 0
+		for _, e := range sEntries {
+			if e.Ty == sp.Ty {
+				sCode = e.Code
+			}
+		}
+		var cTy *Ty
+		for _, e := range cEntries { // a later registration of the same code replaces the earlier
+			if e.Code == sCode {
+				t := e.Ty
+				cTy = &t
+			}
+		}
+		if sCode != 0 && cTy != nil && *cTy == sp.Ty {
+			em, _ := impl["err"].(map[string]interface{})
+			if em == nil || em["k"] != "typed" || em["name"] != sp.Ty.Name || em["ptr"] != sp.Ty.Ptr {
+				mon = fmt.Sprintf("%v is registered under code %d on both sides but the caller got %T (%v)", sp.Ty, sCode, gotErr, gotErr)
 			}
 		}
 	}
